@@ -3126,6 +3126,48 @@ done:
 
 /******************************************************************************
  NAME
+    SDIregister_data_ref -- make a newly created data element part of the SDS
+
+ DESCRIPTION
+    Called by the routines that create the data element of an SDS themselves
+    (SDsetexternalfile, SDsetnbitdataset, SDsetcompress, SDsetchunk).  When
+    the SDS already has a Vgroup in the file (it was created in an earlier
+    session), the new data tag/ref must be inserted into that Vgroup, and the
+    header must be flushed; otherwise the data is not found after the file
+    is closed and reopened.
+
+ RETURNS
+    SUCCEED/FAIL
+******************************************************************************/
+static int
+SDIregister_data_ref(NC *handle, NC_var *var)
+{
+    if (var->vgid) {
+        int32 vg;
+
+        /* attach to the variable's Vgroup */
+        vg = Vattach(handle->hdf_file, var->vgid, "w");
+        if (vg == FAIL)
+            return FAIL;
+
+        /* add the new data element to the existing Vgroup */
+        if (Vaddtagref(vg, (int32)DATA_TAG, (int32)var->data_ref) == FAIL) {
+            Vdetach(vg);
+            return FAIL;
+        }
+
+        if (Vdetach(vg) == FAIL)
+            return FAIL;
+    }
+
+    /* added a new object -- make sure we flush the header */
+    handle->flags |= NC_HDIRTY;
+
+    return SUCCEED;
+} /* SDIregister_data_ref */
+
+/******************************************************************************
+ NAME
     SDsetexternalfile -- store info in a separate file
  USAGE
     int32 SDsetexternalfile(id, filename, offset)
@@ -3218,6 +3260,9 @@ SDsetexternalfile(int32       id,       /* IN: dataset ID */
         /* need to give a length since the element does not exist yet */
         status = (int)HXcreate(handle->hdf_file, (uint16)DATA_TAG, (uint16)var->data_ref, filename, offset,
                                length);
+        if (status != FAIL && SDIregister_data_ref(handle, var) == FAIL) {
+            HGOTO_ERROR(DFE_ARGS, FAIL);
+        }
     }
     if (status != FAIL) {
         if (var && (var->aid != 0) && (var->aid != FAIL)) {
@@ -3589,6 +3634,11 @@ SDsetnbitdataset(int32 id,        /* IN: dataset ID */
         }
 
         var->aid = status;
+
+        /* Insert data tag/ref into the variable's Vgroup and flush the header */
+        if (SDIregister_data_ref(handle, var) == FAIL) {
+            HGOTO_ERROR(DFE_ARGS, FAIL);
+        }
     } /* end if */
 
     ret_value = status;
@@ -3778,29 +3828,10 @@ SDsetcompress(int32        id,        /* IN: dataset ID */
         var->aid = status;
     } /* end if */
 
-    /* Insert data tag/ref into the variable's Vgroup */
-    if (var->vgid) {
-        int32 vg;
-
-        /* attach to the variable's Vgroup */
-        vg = Vattach(handle->hdf_file, var->vgid, "w");
-        if (vg == FAIL) {
-            HGOTO_ERROR(DFE_ARGS, FAIL);
-        }
-
-        /* add new Vdata to existing Vgroup */
-        if (Vaddtagref(vg, (int32)DATA_TAG, (int32)var->data_ref) == FAIL) {
-            HGOTO_ERROR(DFE_ARGS, FAIL);
-        }
-
-        /* detach from the variable's VGroup --- will no longer need it */
-        if (Vdetach(vg) == FAIL) {
-            HGOTO_ERROR(DFE_ARGS, FAIL);
-        }
+    /* Insert data tag/ref into the variable's Vgroup and flush the header */
+    if (SDIregister_data_ref(handle, var) == FAIL) {
+        HGOTO_ERROR(DFE_ARGS, FAIL);
     }
-
-    /* added a new object -- make sure we flush the header */
-    handle->flags |= NC_HDIRTY;
 
     ret_value = (status != FAIL ? SUCCEED : FAIL);
 
@@ -5042,7 +5073,12 @@ SDsetchunk(int32         sdsid,     /* IN: sds access id */
 
         var->aid  = ret_value;
         ret_value = SUCCEED; /* re-set to successful */
-    }                        /* end if */
+
+        /* Insert data tag/ref into the variable's Vgroup and flush the header */
+        if (SDIregister_data_ref(handle, var) == FAIL) {
+            HGOTO_ERROR(DFE_ARGS, FAIL);
+        }
+    } /* end if */
 
 done:
     /* free fill value */
